@@ -44,6 +44,7 @@ import Proofs.C05_FuelErr
 import Proofs.C05_ApiTotal
 import Proofs.C05_ViewNec
 import Proofs.C05_Example
+import Proofs.Pins
 namespace Mammoth
 
 /-! ### the reader -/
@@ -701,5 +702,14 @@ example : c05_clauses c05_exBadStyleMap =
   decide +kernel
 example : (apiConvert c05_exBadStyleMap 40 none (fun _ => none) id c05_exOptions).toBool = false := by decide +kernel
 
+
+/-- The tables of the library that this property's theorems consume (regenerated from /repo's source on this run) still have the
+    content the model was validated against: the reader's dispatch table; the set of deliberately ignored elements; the dingbat table (entries and checksums).  An edit of one of them in the library changes model and code
+    alike; it is this theorem that then no longer checks (`Proofs/Pins.lean`). -/
+theorem C05_tables_as_validated :
+    (Generated.handlers = pin_handlers) ∧
+    (sameSet Generated.ignored pin_ignored = true) ∧
+    (dingbatSums Generated.dingbats = (1061, 217117, 77998056)) :=
+  ⟨pins_handlers, pins_ignored, pins_dingbats⟩
 
 end Mammoth
